@@ -75,9 +75,8 @@ def domain_spec(conv, monitor):
     if not is_plain_converter(conv):
         out_of_domain(monitor, "subclass")
         return None
-    if id(conv) in S.tainted:
-        out_of_domain(monitor, "tainted")
-        return None
+    # (a converter whose records were altered behind its back by a derivation - a C10 violation - is still a
+    #  converter: its answers are compared with its own records like anybody else's)
     try:
         recs = spec.snapshot(conv)
         d = conv.delimiter
